@@ -70,7 +70,7 @@ func (tw *TraceWriter) BuildSession(r Recipe) *SessionResult {
 		if d := APDiff(s.Model, snap); len(d) > 0 {
 			s.BuildDiffs = append(s.BuildDiffs, c.M+": "+d[0])
 		}
-		tw.emit(Ev{"ev": "build", "call": c, "snap": snap}, LineInfo{si, 0, -1})
+		tw.emit(Ev{"ev": "build", "pid": 1, "call": c, "snap": snap, "others": []interface{}{}}, LineInfo{si, 0, -1})
 	}
 	s.Real = b.P
 	s.Snap = SnapshotAP(b.P)
